@@ -2,6 +2,7 @@
 package main
 
 import (
+	"runtime/pprof"
 	"flag"
 	"fmt"
 	"os"
@@ -23,6 +24,12 @@ func main() {
 	nshards := flag.Int("nshards", 0, "number of shards")
 	partial := flag.String("partial", "", "partial result file (child process)")
 	flag.Parse()
+	if f := os.Getenv("MC_CPUPROFILE"); f != "" { // development aid: CPU profile of this (shard) process
+		if w, err := os.Create(f); err == nil {
+			pprof.StartCPUProfile(w)
+			defer pprof.StopCPUProfile()
+		}
+	}
 	seed := int64(1)
 	if s := os.Getenv("VERIF_SEED"); s != "" {
 		if v, err := strconv.ParseInt(s, 10, 64); err == nil {
@@ -43,6 +50,7 @@ func main() {
 			fmt.Fprintln(os.Stderr, err)
 			os.Exit(2)
 		}
+		pprof.StopCPUProfile()
 		os.Exit(0)
 	}
 	p.Run(ctx)
